@@ -87,7 +87,13 @@ fn decode_contract<const M: usize>(o: &Out<M>, prefixes: bool) -> Frame {
         std::mem::forget(r);
         cut += 1;
     }
-    // (1) whole encoding followed by the start of the next one
+    // (1a) the encoding alone, at the very end of what has been received
+    let mut c = Cursor::new(&o.b[..o.n]);
+    let r = Frame::check(&mut c);
+    assert!(r.is_ok(), "check does not accept a complete encoding that ends the buffer");
+    assert!(c.position() as usize == o.n, "check accepts a length different from the encoding's");
+    std::mem::forget(r);
+    // (1b) the encoding followed by the start of the next one
     let mut c = Cursor::new(&o.b[..total]);
     let r = Frame::check(&mut c);
     assert!(r.is_ok(), "check rejects a valid encoding");
@@ -164,12 +170,13 @@ n_harness! { 30, fn c08_null() {
     o.put(b'$'); o.put(b'-'); o.put(b'1'); o.crlf();
     o.tail();
     let f = decode_contract(&o, true);
-    assert!(f == Frame::Null, "null does not round-trip");
+    assert!(matches!(&f, Frame::Null), "null does not round-trip");
+    std::mem::forget(f);
 } }
 
 /// Integers, given as a canonical digit string (optional '-', no leading zero): D symbolic digits.
-fn integer_contract<const D: usize>() {
-    let neg: bool = kani::any();
+fn integer_contract<const D: usize, const NEG: bool>() {
+    let neg = NEG;
     let d: [u8; D] = kani::any();
     let mut i = 0;
     while i < D {
@@ -194,20 +201,24 @@ fn integer_contract<const D: usize>() {
     o.crlf();
     o.tail();
     let f = decode_contract(&o, true);
-    match f {
-        Frame::Integer(x) => assert!(x == val, "integer does not round-trip"),
+    match &f {
+        Frame::Integer(x) => assert!(*x == val, "integer does not round-trip"),
         _ => assert!(false, "wrong frame variant"),
     }
+    std::mem::forget(f); // (the drop glue of the recursive Frame type is unwound to the bound otherwise)
 }
-n_harness! { 30, fn c08_integer_1() { integer_contract::<1>() } }
-n_harness! { 30, fn c08_integer_4() { integer_contract::<4>() } }
-n_harness! { 30, fn c08_integer_7() { integer_contract::<7>() } }
+n_harness! { 30, fn c08_integer_1() { integer_contract::<1, false>() } }
+n_harness! { 30, fn c08_integer_1n() { integer_contract::<1, true>() } }
+n_harness! { 30, fn c08_integer_4() { integer_contract::<4, false>() } }
+n_harness! { 30, fn c08_integer_4n() { integer_contract::<4, true>() } }
+n_harness! { 30, fn c08_integer_7() { integer_contract::<7, false>() } }
+n_harness! { 30, fn c08_integer_7n() { integer_contract::<7, true>() } }
 
 /// i64::MIN / i64::MAX and their neighbours: the 18 leading digits are concrete, the last digit and
 /// the sign are symbolic (in range).
-n_harness! { 30, fn c08_integer_limits() {
+fn integer_limits<const NEG: bool>() {
     const PFX: [u8; 18] = *b"922337203685477580";
-    let neg: bool = kani::any();
+    let neg = NEG;
     let last: u8 = kani::any();
     kani::assume(last >= b'0' && last <= if neg { b'8' } else { b'7' });
     let mut o = Out::<{ 28 }>::new();
@@ -226,15 +237,18 @@ n_harness! { 30, fn c08_integer_limits() {
     let f = decode_contract(&o, true);
     let mag: i128 = 9223372036854775800 + (last - b'0') as i128;
     let want: i128 = if neg { -mag } else { mag };
-    match f {
+    match &f {
         Frame::Integer(x) => {
-            assert!(x as i128 == want, "integer near the i64 limit does not round-trip");
-            kani::cover!(x == i64::MIN, "i64::MIN round-trips");
-            kani::cover!(x == i64::MAX, "i64::MAX round-trips");
+            assert!(*x as i128 == want, "integer near the i64 limit does not round-trip");
+            kani::cover!(*x == i64::MIN, "i64::MIN round-trips");
+            kani::cover!(*x == i64::MAX, "i64::MAX round-trips");
         }
         _ => assert!(false, "wrong frame variant"),
     }
-} }
+    std::mem::forget(f);
+}
+n_harness! { 30, fn c08_integer_limits_pos() { integer_limits::<false>() } }
+n_harness! { 30, fn c08_integer_limits_neg() { integer_limits::<true>() } }
 
 /// Array of two bulk strings (1 and 2 arbitrary bytes) — the shape of every request and of no reply.
 n_harness! { 30, fn c08_array_bulk2() {
@@ -262,21 +276,22 @@ n_harness! { 30, fn c08_array_bulk2() {
     std::mem::forget(f);
 } }
 
-/// Array mixing an integer, a null and a simple string; and the empty array.
-n_harness! { 30, fn c08_array_mixed() {
-    let d: u8 = kani::any();
-    kani::assume(d >= b'0' && d <= b'9');
-    let s = ascii_no_crlf::<1>();
-    let empty: bool = kani::any();
+/// Array mixing an integer, a null and a simple string; and the empty array.  Element CONTENTS are
+/// concrete here: any error path inside an array element (a digit or line byte that might be
+/// invalid) sends a niche-encoded `Err` through `?` inside the element loop, whose "Ok" side
+/// carries garbage into the loop and the recursion (DESIGN.md 0.2/7); symbolic contents of these
+/// element kinds are decided at top level (c08_integer_*, c08_simple_*), symbolic bulk payloads
+/// inside arrays in c08_array_bulk2.
+fn array_mixed(empty: bool) {
     let mut o = Out::<{ 28 }>::new();
     o.put(b'*');
     if empty {
         o.small(0); o.crlf();
     } else {
         o.small(3); o.crlf();
-        o.put(b':'); o.put(d); o.crlf();
+        o.put(b':'); o.put(b'7'); o.crlf();
         o.put(b'$'); o.put(b'-'); o.put(b'1'); o.crlf();
-        o.line(b'+', &s);
+        o.line(b'+', b"q");
     }
     o.tail();
     let f = decode_contract(&o, false);
@@ -286,15 +301,43 @@ n_harness! { 30, fn c08_array_mixed() {
                 assert!(v.len() == 0, "empty array does not round-trip");
             } else {
                 assert!(v.len() == 3, "array length differs");
-                assert!(v[0] == Frame::Integer((d - b'0') as i64), "integer element differs");
-                assert!(v[1] == Frame::Null, "null element differs");
-                match &v[2] {
-                    Frame::SimpleString(x) => assert!(x.as_bytes().len() == 1 && x.as_bytes()[0] == s[0], "string element differs"),
-                    _ => assert!(false, "wrong element variant"),
-                }
+                assert!(matches!(&v[0], Frame::Integer(7)), "integer element differs");
+                assert!(matches!(&v[1], Frame::Null), "null element differs");
+                assert!(matches!(&v[2], Frame::SimpleString(x) if x.as_bytes() == b"q"), "string element differs");
             }
         }
         _ => assert!(false, "wrong frame variant"),
     }
     std::mem::forget(f);
-} }
+}
+n_harness! { 30, fn c08_array_mixed() { array_mixed(false) } }
+n_harness! { 30, fn c08_array_empty() { array_mixed(true) } }
+
+/// Arrays whose elements are the shortest possible frames (empty simple string / error: 3 bytes).
+fn array_short_elems(two: bool) {
+    let d: u8 = b'7';
+    let mut o = Out::<{ 28 }>::new();
+    o.put(b'*');
+    o.small(if two { 2 } else { 3 });
+    o.crlf();
+    o.line(b'+', &[]);
+    if !two {
+        o.line(b'-', &[]);
+    }
+    o.put(b':'); o.put(d); o.crlf();
+    o.tail();
+    let f = decode_contract(&o, false);
+    match &f {
+        Frame::Array(v) => {
+            assert!(v.len() == if two { 2 } else { 3 }, "array length differs");
+            // (no `==` on frames: the derived `PartialEq` of the recursive `Frame` type is unwound to
+            // the recursion bound by CBMC)
+            assert!(matches!(&v[0], Frame::SimpleString(x) if x.is_empty()), "empty simple string element differs");
+            assert!(matches!(&v[v.len() - 1], Frame::Integer(x) if *x == (d - b'0') as i64), "integer element differs");
+        }
+        _ => assert!(false, "wrong frame variant"),
+    }
+    std::mem::forget(f);
+}
+n_harness! { 30, fn c08_array_short_elems2() { array_short_elems(true) } }
+n_harness! { 30, fn c08_array_short_elems3() { array_short_elems(false) } }
